@@ -39,6 +39,9 @@ def observe(n, maxb, d):
     for trailing, w in WIDTHS:
         planted = (np.arange(1, slots + 1).reshape(-1, 1) * 100 + np.arange(w).reshape(1, -1))
         res = jnp.asarray(planted.reshape(shape[:3] + trailing))
+        if bp.n_devices > 1 and len(jax.devices()) >= bp.n_devices:
+            # real (emulated) devices: hand over what a pmapped computation returns - an array sharded over the devices
+            res = jax.pmap(lambda x: x + 0)(res)
         out = np.asarray(bp.unbatch_results(res))
         ok_shape = out.shape[1:] == trailing
         obs["un"].append([int(x) for x in out.reshape(-1)] if ok_shape else [-1])
